@@ -5,7 +5,7 @@
 //!   ctype  none | v<idx> (fixed variant) | s<hex> (ContentType::Str) | S<hex> (ContentType::String)
 //!   body   static:<data> | str:<data> | vec:<data> | file:<declared>:<data> | tmp:<declared>:<data>
 //!          | filemissing:<declared> | filedir:<declared> | tmpmissing:<declared>
-//!          | es:<hex>,<hex>,.. (event stream, one Event::Message per item, 'e' = empty text, senders dropped before the write)
+//!          | es:<hex>,<hex>,.. (event stream, one Event::Message per item, 'e' = empty text, B<n> = n bytes 'a', senders dropped before the write)
 //!          | drop | getbody (non-Normal response kinds)
 #![allow(dead_code)]
 use servlin::internal::{ContentType, Event, ResponseBody, ResponseKind};
@@ -119,7 +119,13 @@ pub fn build(toks: &[&str]) -> (Built, usize) {
         "es" => {
             let (mut sender, r) = Response::event_stream();
             for item in arg.split(',').filter(|s| !s.is_empty()) {
-                let text = if item == "e" { String::new() } else { ascii(&format!("x{item}")) };
+                let text = if item == "e" {
+                    String::new()
+                } else if let Some(n) = item.strip_prefix('B') {
+                    "a".repeat(n.parse().unwrap())
+                } else {
+                    ascii(&format!("x{item}"))
+                };
                 sender.send(Event::Message(text));
             }
             drop(sender);
